@@ -14,7 +14,8 @@ def names_of(kinds):
     return {"%s%d" % (KPREFIX[k], i + 1): k for i, k in enumerate(kinds)}
 
 
-def seq_constants(kinds, void, coro, strict, max_emit, max_handles, forms=None):
+def seq_constants(kinds, void, coro, strict, max_emit, max_handles, forms=None, hooked=False, reg_emit=0):
+    """hooked: the first listener (a coroutine kind) obtains its emitter/collector pair through signal::hook_up()"""
     nm = names_of(kinds)
     c = {}
     for k, cname in KCONST.items():
@@ -27,6 +28,8 @@ def seq_constants(kinds, void, coro, strict, max_emit, max_handles, forms=None):
     c["MaxHandles"] = max_handles
     c["CoroMode"] = "TRUE" if coro else "FALSE"
     c["Strict"] = "TRUE" if strict else "FALSE"
+    c["Hooked"] = "{%s}" % (list(nm)[0] if hooked else "")
+    c["RegEmit"] = reg_emit
     return c, nm
 
 
@@ -44,8 +47,8 @@ def seq_proj(nm):
 
 
 def run_seq(ctx, rp, tag, kinds, void=False, coro=False, strict=False, max_emit=2, max_handles=2, forms=None,
-            max_paths=None, extra_random=0, replay=True, replay_timeout=900):
-    consts, nm = seq_constants(kinds, void, coro, strict, max_emit, max_handles, forms)
+            max_paths=None, extra_random=0, replay=True, replay_timeout=900, hooked=False, reg_emit=0):
+    consts, nm = seq_constants(kinds, void, coro, strict, max_emit, max_handles, forms, hooked, reg_emit)
     if not replay:
         cfgp = os.path.join(vlib.BUILD, "%s_%s.cfg" % (ctx.prop, tag))
         vlib.write_cfg(cfgp, open(os.path.join(vlib.VERIF, "spec/Signal/Signal_base.cfg")).read(), consts)
@@ -55,8 +58,11 @@ def run_seq(ctx, rp, tag, kinds, void=False, coro=False, strict=False, max_emit=
         return res
 
     def hdr(k, st0):
-        return {"void": void, "coro": coro, "pick": k % 4, "kinds": nm}
+        return {"void": void, "coro": coro, "pick": k % 4, "kinds": nm, "hooked": list(nm)[0] if hooked else "",
+                "late": bool((k // 4) % 2)}
     must = list(SEQ_ACTIONS)
+    if hooked:
+        must.append("HookUp")
     if any(k.startswith("cb") for k in kinds):
         must.append("Connect")
     if not any(k in ("loop", "gated") for k in kinds):
@@ -351,6 +357,9 @@ def run(ctx):
         seq("c_lgt", LGT, coro=True, max_emit=2, **cap)
         seq("n_lft", LFT, max_emit=3, **cap)
         seq("vc_lgo", LGO, void=True, coro=True, max_emit=3, **cap)
+        # the pair obtained through hook_up(fn), fn emitting 0..2 values through the collector before it returns
+        seq("hn_lgo", LGO, max_emit=2, hooked=True, reg_emit=2, max_paths=2500, extra_random=100)
+        seq("hc_glt", ["gated", "loop", "cbt"], coro=True, max_emit=2, hooked=True, reg_emit=2, max_paths=2500, extra_random=100)
         # the promised properties under the discipline (Strict = TRUE), deeper bound, specification only
         seq("s_c_lgo", LGO, coro=True, strict=True, max_emit=3, replay=False)
         seq("s_n_lgt", LGT, strict=True, max_emit=3, replay=False)
